@@ -11,6 +11,7 @@ with mpmath (50 digits; cross-checked against mpmath.odefun inside the harness) 
 hand-written compositions; y0 + h f(y0) with the model's own f for the Euler step.
 """
 import itertools
+import math
 
 from mc.core import Result
 from mc.ref import massaction as M
@@ -85,6 +86,7 @@ def chunks(tier):
         out += [("F", n, me, pats, lo, min(lo + 16, len(masks))) for lo in range(0, len(masks), 16)]
     out += [("B", i, j) for i in range(3) for j in range(3)]
     out += [("BI", i) for i in range(3)]
+    out += [("D", "assoc"), ("D", "dissoc")]
     return out
 
 
@@ -370,6 +372,25 @@ def check_bimolecular(res, kf, kb, a, b, c, reversible, selfcheck=True):
         _viol(res, "C06|%s|integrate|raises" % layer, "%s: integrate(%s, %s) raised %s: %s" % (what, TOUT, c0, type(e).__name__, e), case, "EXC %s" % type(e).__name__, "a result")
         ok = False
     ok &= _check_upper(res, layer, case, what, rsys, names, c0, upper)
+    # chempy's own closed forms for this step (initial product c, "major" = the more abundant reactant)
+    if a != b or reversible:
+        from chempy.kinetics import integrated
+
+        res.evaluations += 1
+        try:
+            if reversible:
+                cf = [float(integrated.binary_rev(t, kf, kb, c, max(a, b), min(a, b))) for t in TOUT]
+            else:
+                cf = [float(integrated.binary_irrev(t, kf, c, max(a, b), min(a, b))) for t in TOUT]
+            worst = max(abs(v - e["FeSCN+2"]) / max(1.0, abs(e["FeSCN+2"])) for v, e in zip(cf, exact))
+        except Exception as e:
+            cf, worst = "EXC %s" % type(e).__name__, float("inf")
+        if not worst <= TOL:
+            ok = False
+            _viol(res, "C06|%s|closed-form|differs-from-exact-solution" % layer, "%s from %s: chempy.kinetics.integrated.%s gives product %r at t=%r, exact %r" % (
+                what, c0, "binary_rev" if reversible else "binary_irrev", cf, TOUT, [e["FeSCN+2"] for e in exact]), case, cf, [e["FeSCN+2"] for e in exact])
+        else:
+            res.outcomes["B closed form agrees"] += 1
     r = kf * a * b - kbm * c
     f = {"Fe+3": -r, "SCN-": -r, "FeSCN+2": r}
     cb, cb2 = extra.get("max_euler_step_cb"), extra2.get("max_euler_step_cb")
@@ -378,6 +399,16 @@ def check_bimolecular(res, kf, kb, a, b, c, reversible, selfcheck=True):
     else:
         cls = _check_euler(res, layer, case, what, cb, names, c0, f, upper)
         res.outcomes["B euler closed tank: limited by %s" % cls] += 1
+        # the same system with scaled dependent variables (pyodesys ScaledSys): the advertised step is in the user's units
+        try:
+            from pyodesys.symbolic import ScaledSys
+            from chempy.kinetics.ode import get_odesys
+
+            _, extra3 = get_odesys(rsys, SymbolicSys=ScaledSys, dep_scaling=1e3)
+            cls3 = _check_euler(res, layer + "-scaled", case, what + " with dep_scaling=1e3", extra3["max_euler_step_cb"], names, c0, f, upper)
+            res.outcomes["B euler scaled variables: limited by %s" % cls3] += 1
+        except Exception as e:
+            _viol(res, "C06|%s-scaled|pipeline|raises" % layer, "%s: get_odesys(SymbolicSys=ScaledSys, dep_scaling=1e3) raised %s: %s" % (what, type(e).__name__, e), case, "EXC %s" % type(e).__name__, None)
         for fi, (F, kind) in enumerate(FEEDS):
             fc = fc_of(kind, names)
             params = dict(feedratio=F, **{"fc_" + s: fc[s] for s in names})
@@ -386,6 +417,49 @@ def check_bimolecular(res, kf, kb, a, b, c, reversible, selfcheck=True):
             res.outcomes["B euler stirred tank: limited by %s" % cls] += 1
     direction = "forward" if r > 0 else ("backward" if r < 0 else "at equilibrium")
     res.outcomes["%s %s%s: %s" % (layer, direction, " a=b" if a == b else "", "ok" if ok else "WRONG")] += 1
+
+
+# ------------------------------------------------------------------------------------------------- layer D: dimerisation, reduced systems
+def check_dimer(res, direction, k, A0, N0):
+    """2 NO2 -> N2O4 (A' = -2 k A^2) or N2O4 -> 2 NO2 (first order), integrated as the full system and as the reduced
+    systems pyodesys builds from chempy's analytic eliminations (one concentration expressed through the invariants)"""
+    from pyodesys.symbolic import PartiallySolvedSystem
+
+    text = ("2 NO2 -> N2O4; %r" if direction == "assoc" else "N2O4 -> 2 NO2; %r") % k
+    case = dict(layer="D", direction=direction, k=k, A0=A0, N0=N0)
+    what = "[%s]" % text
+    res.states += 1
+    res.nontrivial += 1
+    res.transitions += 1
+    c0 = {"NO2": A0, "N2O4": N0}
+    exact = []
+    for t in TOUT:
+        if direction == "assoc":
+            A = A0 / (1 + 2 * k * t * A0) if A0 else 0.0
+            exact.append({"NO2": A, "N2O4": N0 + (A0 - A) / 2})
+        else:
+            N = N0 * math.exp(-k * t)
+            exact.append({"NO2": A0 + 2 * (N0 - N), "N2O4": N})
+    upper = {"NO2": A0 + 2 * N0, "N2O4": N0 + A0 / 2}
+    res.evaluations += 1
+    try:
+        rsys, odesys, extra = _pipeline(text)
+        names = list(odesys.names)
+    except Exception as e:
+        _viol(res, "C06|D|pipeline|raises", "%s: from_string/get_odesys raised %s: %s" % (what, type(e).__name__, e), case, "EXC %s" % type(e).__name__, None)
+        return
+    ok = True
+    for pref in (None, ["NO2"], ["N2O4"]):
+        label = "full system" if pref is None else "reduced system, %s eliminated" % pref[0]
+        try:
+            sys_ = odesys if pref is None else PartiallySolvedSystem(odesys, extra["linear_dependencies"](pref))
+            result = sys_.integrate(list(TOUT), dict(c0), atol=1e-12, rtol=1e-12, nsteps=NSTEPS)
+            rnames = list(sys_.names) if pref is None else names
+            ok &= _check_rows(res, "D", dict(case, pref=pref), "%s (%s) from %s" % (what, label, c0), names, c0, result, exact, upper)
+        except Exception as e:
+            ok = False
+            _viol(res, "C06|D|integrate|raises", "%s (%s): integrate raised %s: %s" % (what, label, type(e).__name__, e), dict(case, pref=pref), "EXC %s" % type(e).__name__, "a result")
+    res.outcomes["D %s: %s" % (direction, "ok" if ok else "WRONG")] += 1
 
 
 # ------------------------------------------------------------------------------------------------- driver
@@ -403,6 +477,13 @@ def run_chunk(chunk, tier):
         for a, b, c in itertools.product(AB, AB, CC):
             check_bimolecular(res, KF[i], KB[j], a, b, c, True, selfcheck=(c == CC[1]))
         res.sample(dict(layer="B", kf=KF[i], kb=KB[j], lattice="a,b in %s; c in %s; t in %s" % (AB, CC, TOUT)), limit=1)
+    elif chunk[0] == "D":
+        _, direction = chunk
+        for k in (0.5, 3.0, 40.0):
+            for A0, N0 in itertools.product((0.0, 0.3, 1.7), (0.0, 0.2, 1.0)):
+                if A0 or N0:
+                    check_dimer(res, direction, k, A0, N0)
+        res.sample(dict(layer="D", direction=direction, k=[0.5, 3.0, 40.0]), limit=1)
     elif chunk[0] == "BI":
         _, i = chunk
         for a, b, c in itertools.product(AB, AB, CC):
@@ -414,7 +495,9 @@ def run_chunk(chunk, tier):
 
 def replay(case):
     res = Result()
-    if case["layer"] == "F":
+    if case["layer"] == "D":
+        check_dimer(res, case["direction"], case["k"], case["A0"], case["N0"])
+    elif case["layer"] == "F":
         check_first_order(res, case["n"], case["mask"], case["p"], case["limited"], only_y0=case.get("y0"))
     else:
         check_bimolecular(res, case["kf"], case["kb"], case["a"], case["b"], case["c"], case["reversible"], selfcheck=False)
